@@ -125,7 +125,7 @@ def c06_3(cx):
     cx.flow(pc, o, [r"stale_tracked_structs: tracked_struct::IdentityMap::drain\(.*\)\.1\}?"], [r"stale_tracked_structs: tracked_struct::IdentityMap::drain\(.*\)\.0"], "the STALE list (drain().1) is handed to diff_outputs", agg)
 
 
-@ob("C06.4", ["C06", "C07"], "a stale struct that is not deleted keeps its memoized results and stays enumerable; memos surviving the deletion would be served for the next struct allocated in the slot", kind="MUSTCALL+ORDER")
+@ob("C06.4", ["C06", "C07", "C23"], "a stale struct that is not deleted keeps its memoized results and stays enumerable; memos surviving the deletion would be served for the next struct allocated in the slot", kind="MUSTCALL+ORDER")
 def c06_4(cx):
     """diff_outputs reports every stale tracked struct and every old output not recreated; report_stale_output -> remove_stale_output; tracked remove_stale_output -> delete_entity; delete_entity: updated_at.swap(None) (panics on None / current revision) then clear_memos then free_list.push(id); entries() filters updated_at.is_some()."""
     d = cx.fn(r"^function::diff_outputs::<impl function::memo::MemoHeader>::diff_outputs$")
